@@ -16,4 +16,5 @@ func main() {
 	reusex.Drive(w, o, func(s string) string { return "(KReuse " + s + ")" })
 	idx.Drive(w, o, func(s string) string { return "(KId " + s + ")" })
 	idx.DriveBatches(w, o, func(s string) string { return "(KIdB " + s + ")" })
+	idx.DriveHeld(w, o, func(s string) string { return "(KHeld " + s + ")" })
 }
